@@ -79,6 +79,18 @@ def wallCorners (g w t : Ang) (sp : SpaceP) (outline : List (Rat × Rat)) (ws : 
     let pos := wallPosition g sp ⟨ws.x, ws.y, ws.z⟩
     pts.map (fun p => toGlobal pos az t p.1 p.2)
 
+/-- a point of the wall's own frame in global coordinates (`to_global_coords_matrix`) -/
+def wallToWorld (pos : Vec3) (az t : Ang) (p : Vec3) : Vec3 := vadd pos (rotZ az (rotX t p))
+
+/-- `Window::shades_for_setback`: the global corners of the four reveal surfaces (head, left jamb, right jamb, sill) of a window at
+    `(x, y)` of size `w × h` set back by `s` in a wall of pose `(pos, az, t)` -/
+def reveals (pos : Vec3) (az t : Ang) (x y w h s : Rat) : List (List Vec3) :=
+  let W := wallToWorld pos az t
+  [ [(0, 0), (0, -s), (w, -s), (w, 0)].map (fun p => toGlobal (W ⟨x, y + h, 0⟩) az (Ang.add t Ang.half) p.1 p.2),
+    [(0, 0), (0, -h), (s, -h), (s, 0)].map (fun p => toGlobal (W ⟨x, y + h, 0⟩) (Ang.add az Ang.half) t p.1 p.2),
+    [(0, 0), (-s, 0), (-s, -h), (0, -h)].map (fun p => toGlobal (W ⟨x + w, y + h, 0⟩) (Ang.add az (Ang.neg Ang.half)) t p.1 p.2),
+    [(0, 0), (w, 0), (w, s), (0, s)].map (fun p => toGlobal (W ⟨x, y, 0⟩) az (Ang.add t (Ang.neg Ang.half)) p.1 p.2) ]
+
 /-- twice the signed area of the triangle (0, p, q): the shoelace term -/
 def cross2 (p q : Rat × Rat) : Rat := p.1 * q.2 - q.1 * p.2
 
